@@ -186,6 +186,7 @@ struct AState {
   bool uncertain = false;        // a wall-clock jump happened since arming: only the safety half is asserted
   int64_t last_fired_instant = -1;
   long callbacks = 0;
+  int64_t kept_target = -1;      // one-shot: the instant served last; enable() searches from max(now, that) until disable() forgets it
   long reenable_left = 0;        // one-shot: how many more times the callback enables the alarm again
 };
 
@@ -239,6 +240,7 @@ void on_alarm(int i) {
   if (s.spec.kind == 1) {
     int64_t served = s.expect_local;
     s.enabled = false; s.expect_local = -1;
+    if (!s.uncertain && served >= 0) s.kept_target = served;
     if (s.alarm->isEnabled()) sim::violation("C20/oneshot-still-enabled", "a one-shot alarm is still enabled inside its callback");
     else if (s.reenable_left > 0 && !s.uncertain && served >= 0) {
       // enabled again from inside the callback: the instant just served must not be served a second time, even if the
@@ -282,7 +284,8 @@ void apply(const sim::Op &op) {
   if (k == "calmask") {
     W.mcal.mask = op.arg(1) & 127;
     W.cal.updateWeekMask((uint8_t)W.mcal.mask);    // refreshes the subscribed (enabled) workday alarms
-    for (int j = 0; j < NAL; ++j) if (W.a[j].enabled && W.a[j].spec.kind == 2) { int64_t now_local = wall_ms() / 1000 + W.a[j].spec.tz_s; model_arm(j, now_local); }
+    // a calendar change makes every workday alarm refresh() itself: a new search from the current wall time (new arming epoch)
+    for (int j = 0; j < NAL; ++j) if (W.a[j].enabled && W.a[j].spec.kind == 2) { int64_t now_local = wall_ms() / 1000 + W.a[j].spec.tz_s; W.a[j].last_fired_instant = -1; model_arm(j, now_local); }
     return;
   }
   if (!s.defined || !s.init_ok) return;
@@ -297,16 +300,19 @@ void apply(const sim::Op &op) {
     // a wall-clock jump that happened while this alarm held a target leaves that target behind (a one-shot keeps it on
     // purpose, to avoid double firing under skew); what enable() does then is unspecified: stay uncertain until refresh()/disable()
     bool u = s.uncertain;
-    model_arm(i, now_local);
+    model_arm(i, (s.spec.kind == 1 && s.kept_target >= 0) ? std::max<int64_t>(now_local, s.kept_target) : now_local);
     s.uncertain = u;
     sim::trace("enable %d expect_local=%ld uncertain=%d", i, (long)s.expect_local, (int)u);
   } else if (k == "dis") {
     if (!s.enabled) return;
-    s.alarm->disable(); s.enabled = false; s.expect_local = -1; s.uncertain = false;   // disable() of a running alarm forgets its target
+    // disable() of a running alarm forgets its target: an explicit disable()/enable() (like refresh()) starts a new arming
+    // from the current wall time, so "never twice for one instant" is judged per arming epoch
+    s.alarm->disable(); s.enabled = false; s.expect_local = -1; s.uncertain = false; s.kept_target = -1; s.last_fired_instant = -1;
     sim::trace("disable %d", i);
   } else if (k == "refresh") {
     if (!s.enabled) return;
     s.alarm->refresh();
+    s.last_fired_instant = -1;      // refresh() asks for a new search from the current wall time
     model_arm(i, now_local);
     sim::trace("refresh %d", i);
   } else if (k == "remain") {
